@@ -47,6 +47,10 @@ def corpus():
         dict(base, ops=[['conf', [['LongLivedPorts', ['80,443']]]], ['lop', 'LongLivedPorts', 'append', '8080'], ['save'], ['ack', True]]),
         dict(base, ops=[['conf', [['LongLivedPorts', []]]], ['conf', [['SocksPort', []], ['Nickname', []]]]]),
         dict(base, ops=[['assign', 'ClientUseIPv6', -1], ['assign', 'PathBiasNoticeRate', 0.25], ['save'], ['ack', True]]),
+        # fixed 144b538: DNSPort is unset and has no default, so the attach asks GETCONF DNSPort and then GETCONF __DNSPort; another
+        # controller sets DNSPort and Tor announces it between the two answers
+        {'options': [['DNSPort', 'PortLines'], ['Nickname', 'String'], ['Log', 'LineList']], 'store': {'DNSPort': ['9053', '9054 IsolateDestAddr']},
+         'defaults': None, 'mid': {'after': 1, 'old': {'DNSPort': []}}, 'ops': [['lop', 'DNSPort', 'append', '9055'], ['save'], ['ack', True]]},
     ]
 
 
